@@ -37,7 +37,7 @@ ASSUMPTIONS = [
     "don't-care classes of ttsem and bounds/invariant-only invalidity are excluded from judgement",
 ]
 SHARD_TIMEOUT = {"quick": 600, "thorough": 5400}
-BOUNDS = {"quick": dict(n=600, plans=3), "thorough": dict(n=20000, plans=3)}
+BOUNDS = {"quick": dict(n=600, plans=3), "thorough": dict(n=60000, plans=3)}
 PROFILE = dict(int_params=0.15)
 
 
